@@ -833,6 +833,11 @@ impl Worker {
         });
 
         let mut file = if let Some(file) = file {
+            // A reused file may belong to a set that's already over its limit
+            if !had_active_file {
+                file_set.apply_retention(&self.fs, self.max_files.saturating_add(1));
+            }
+
             file
         } else {
             // If there was an active file then the file set hasn't been read yet
